@@ -182,7 +182,14 @@ pub fn get_solidity_version_from_source_unit(source_unit: SourceUnit) -> Option<
     for node in target_nodes {
         let source_unit_part = node.source_unit_part().unwrap();
 
-        if let SourceUnitPart::PragmaDirective(_, _, solidity_version_literal) = source_unit_part {
+        if let SourceUnitPart::PragmaDirective(_, pragma_identifier, solidity_version_literal) =
+            source_unit_part
+        {
+            //Other pragmas (abicoder, experimental) do not carry the solidity version
+            if pragma_identifier.name != "solidity" {
+                continue;
+            }
+
             //A version component that is not a number that fits an i32 yields no version
             let minor_major_patch_version =
                 get_solidity_major_minor_patch_version(&solidity_version_literal.string)
